@@ -119,6 +119,77 @@ fn lattice_item(i: u64, acc: &mut Acc) {
     }
 }
 
+/// Strength-aware boundary sweep. The filter's behaviour changes where d = (A-4B+4C-D)/8 crosses
+/// 0, +-strength and +-2*strength (the up-down ramp) and where B + d1 / C - d1 leave 0..255; a
+/// value lattice that ignores the strength seldom lands on those. Item = (strength, B); for C at
+/// strength-dependent distances from B and A from a small set, D is *solved* so that d hits every
+/// boundary value (with every truncation remainder 0..7); likewise A solved for fixed D. Patterns
+/// sharing (A,B,C) - or (B,C,D) - fill whole groups of eight lanes, so that a whole vector of
+/// lanes sits on the same boundary at once.
+fn ramp_item(i: u64, acc: &mut Acc) {
+    const BS: [i32; 9] = [0, 1, 12, 64, 127, 128, 200, 254, 255];
+    let s = (i / 9 + 1) as i32;
+    let b = BS[(i % 9) as usize];
+    let mut deltas: Vec<i32> = vec![0, 1, 2, 3, s, 2 * s, 4 * s, 8 * s, 4 * s + 62, 4 * s + 63, 4 * s + 64, 4 * s + 65, 2 * s - 1, 2 * s + 1, 255];
+    let neg: Vec<i32> = deltas.iter().map(|d| -d).collect();
+    deltas.extend(neg);
+    let mut targets: Vec<i32> = vec![0, 1, 2, s - 1, s, s + 1, 2 * s - 2, 2 * s - 1, 2 * s, 2 * s + 1, 159];
+    let negt: Vec<i32> = targets.iter().map(|d| -d).collect();
+    targets.extend(negt);
+    targets.sort();
+    targets.dedup();
+    let mut pats: Vec<[u8; 4]> = Vec::new();
+    for dl in deltas.iter() {
+        let c = b + dl;
+        if !(0..=255).contains(&c) {
+            continue;
+        }
+        for fixed in [0i32, 1, 2, 127, 159, 253, 254, 255, b, c] {
+            for solve_d in [true, false] {
+                let start = pats.len();
+                for t in targets.iter() {
+                    for r in 0..8 {
+                        // numerator n with n / 8 (truncating) == t
+                        let n = if *t >= 0 { 8 * t + r } else { 8 * t - r };
+                        if *t == 0 && r > 0 {
+                            // both signs of the remainder
+                            for n2 in [r, -r] {
+                                let v = if solve_d { fixed - 4 * b + 4 * c - n2 } else { n2 + 4 * b - 4 * c + fixed };
+                                if (0..=255).contains(&v) {
+                                    pats.push(if solve_d { [fixed as u8, b as u8, c as u8, v as u8] } else { [v as u8, b as u8, c as u8, fixed as u8] });
+                                }
+                            }
+                            continue;
+                        }
+                        let v = if solve_d { fixed - 4 * b + 4 * c - n } else { n + 4 * b - 4 * c + fixed };
+                        if (0..=255).contains(&v) {
+                            pats.push(if solve_d { [fixed as u8, b as u8, c as u8, v as u8] } else { [v as u8, b as u8, c as u8, fixed as u8] });
+                        }
+                    }
+                }
+                // whole groups of eight lanes per (A,B,C) / (B,C,D)
+                while pats.len() > start && (pats.len() - start) % 8 != 0 {
+                    let last = *pats.last().unwrap();
+                    pats.push(last);
+                }
+            }
+        }
+    }
+    let st = s as u8;
+    let exp = expect_of(&pats, st);
+    let nt = nontrivial_count(&pats, &exp);
+    for site in 0..4 {
+        if let Err(m) = run_site(site, st, &pats, &exp) {
+            acc.fail(json!({"kind":"params","ramp_item":i,"strength":st,"site":site}), m);
+            return;
+        }
+        acc.count_n(pats.len() as u64, nt);
+    }
+    if i == 40 {
+        acc.sample(|| json!({"strength": st, "B": b, "patterns": pats.len(), "first": format!("{:?}", &pats[..pats.len().min(4)]), "d_targets": format!("{:?}", targets)}));
+    }
+}
+
 /// Exhaustive: item = (A,B); inner = all 65536 (C,D) x 12 strengths x 4 sites.
 fn full_item(i: u64, acc: &mut Acc) {
     let a = (i >> 8) as u8;
@@ -232,6 +303,51 @@ fn image(w: usize, h: usize, family: u32, src: &mut dyn FnMut() -> u8) -> Vec<u8
                 }
             }
         }
+        5 => {
+            // repeating tiles: the image is tiled with one to three 8x8 tiles (flat, or written with
+            // an alphabet of one to three values per sample / per row / per column), chosen per
+            // block - equal blocks next to each other, flat blocks next to textured ones, the same
+            // pair of blocks meeting at many edges. A filter that skips, remembers or batches edges
+            // by looking at whole blocks has to get all of these right.
+            const NOTABLE: [u8; 8] = [0, 1, 2, 127, 128, 253, 254, 255];
+            let mut value = |src: &mut dyn FnMut() -> u8| -> u8 {
+                let a = src();
+                if a & 1 == 0 {
+                    NOTABLE[(a >> 1) as usize % 8]
+                } else {
+                    src()
+                }
+            };
+            let na = 1 + src() as usize % 3;
+            let alpha: Vec<u8> = (0..na).map(|_| value(src)).collect();
+            let nt = 1 + src() as usize % 3;
+            let mut tiles: Vec<[u8; 64]> = Vec::new();
+            for _ in 0..nt {
+                let mut t = [0u8; 64];
+                let style = src() % 4;
+                let line: Vec<u8> = (0..8).map(|_| alpha[src() as usize % na]).collect();
+                let flat = alpha[src() as usize % na];
+                for y in 0..8 {
+                    for x in 0..8 {
+                        t[x + y * 8] = match style {
+                            0 => flat,
+                            1 => alpha[src() as usize % na],
+                            2 => line[y],
+                            _ => line[x],
+                        };
+                    }
+                }
+                tiles.push(t);
+            }
+            let bw = (w + 7) / 8;
+            let bh = (h + 7) / 8;
+            let pick: Vec<usize> = (0..bw * bh).map(|_| src() as usize % nt).collect();
+            for y in 0..h {
+                for x in 0..w {
+                    img[x + y * w] = tiles[pick[x / 8 + (y / 8) * bw]][(x % 8) + (y % 8) * 8];
+                }
+            }
+        }
         _ => {
             // constant rows or constant columns (every lane of a vector chunk sees the same pattern)
             let rows = src() & 1 == 0;
@@ -268,7 +384,7 @@ fn check_image(img: &[u8], w: usize, s: u8) -> Result<bool, String> {
 fn grid_item(seed: u64, wmax: u64, i: u64, acc: &mut Acc) {
     let w = (i % wmax + 1) as usize;
     let h = (i / wmax) as usize;
-    for family in 0..5u32 {
+    for family in 0..6u32 {
         for s in 1..=12u8 {
             let bytes = super::content_bytes(seed ^ ((w as u64) << 24) ^ ((h as u64) << 12) ^ ((family as u64) << 4) ^ s as u64, w * h * 2 + 128);
             let mut k = 0;
@@ -287,16 +403,16 @@ fn grid_item(seed: u64, wmax: u64, i: u64, acc: &mut Acc) {
         }
     }
     if w % 8 != 0 && h >= 10 {
-        acc.label_n("horizontal edge with remainder columns", 60);
+        acc.label_n("horizontal edge with remainder columns", 72);
     }
     if h % 8 != 0 && w >= 10 {
-        acc.label_n("vertical edge with remainder rows", 60);
+        acc.label_n("vertical edge with remainder rows", 72);
     }
     if h < 10 && w < 10 {
-        acc.label_n("no filterable edge", 60);
+        acc.label_n("no filterable edge", 72);
     }
     if w == 19 && h == 11 {
-        acc.sample(|| json!({"w": w, "h": h, "families": ["hash bytes", "piecewise flat 8x8 blocks", "extremes", "plateaus in ramps", "constant rows / columns"], "strengths": "1..=12"}));
+        acc.sample(|| json!({"w": w, "h": h, "families": ["hash bytes", "piecewise flat 8x8 blocks", "extremes", "plateaus in ramps", "constant rows / columns", "repeating tiles"], "strengths": "1..=12"}));
     }
 }
 
@@ -305,7 +421,7 @@ fn random_image_case(g: &mut Gen, wmax: i64, hmax: i64) -> Verdict {
     let hcap = (6000 / w as i64).clamp(1, hmax);
     let h = g.range(0, hcap) as usize;
     let s = g.range(1, 12) as u8;
-    let family = g.below(5);
+    let family = g.below(6);
     let mut src = || g.byte();
     let img = image(w, h, family, &mut src);
     g.describe(|| json!({"w": w, "h": h, "strength": s, "family": family, "head": &img[..img.len().min(24)]}));
@@ -314,7 +430,7 @@ fn random_image_case(g: &mut Gen, wmax: i64, hmax: i64) -> Verdict {
         Ok(nt) => Verdict::pass_l(
             nt,
             fnv64(&img) ^ ((w as u64) << 40) ^ ((s as u64) << 56),
-            vec![["uniform", "piecewise flat", "extremes", "plateaus in ramps", "constant rows / columns"][family as usize]],
+            vec![["uniform", "piecewise flat", "extremes", "plateaus in ramps", "constant rows / columns", "repeating tiles"][family as usize]],
         ),
     }
 }
@@ -328,7 +444,7 @@ fn extreme_item(seed: u64, i: u64, acc: &mut Acc) {
     let small = SMALL[((i / 27) % 8) as usize];
     let wide = (i / 216) % 2 == 0;
     let (w, h) = if wide { (big, small) } else { (small, big) };
-    for (family, s) in [(1u32, 4u8), (3, 9), (4, 12)] {
+    for (family, s) in [(1u32, 4u8), (3, 9), (4, 12), (5, 7)] {
         let bytes = super::content_bytes(seed ^ ((w as u64) << 24) ^ ((h as u64) << 4) ^ family as u64, 8192);
         let mut k = 0;
         let mut src = || {
@@ -344,9 +460,67 @@ fn extreme_item(seed: u64, i: u64, acc: &mut Acc) {
             Ok(nt) => acc.count(nt),
         }
     }
-    acc.label_n(if wide { "very wide" } else { "very tall" }, 3);
+    acc.label_n(if wide { "very wide" } else { "very tall" }, 4);
     if i == 5 {
         acc.sample(|| json!({"w": w, "h": h, "families": ["piecewise flat", "plateaus in ramps", "constant rows / columns"], "strengths": [4, 9, 12]}));
+    }
+}
+
+/// Echo images: the four rows (columns) around every block edge but the first are the Annex J
+/// *output* of the four rows (columns) around the edge before it, computed with the reference
+/// model for the strength in use - a chain of successively softened edges. An implementation that
+/// filters in place and compares, caches or reuses anything across edges meets its own earlier
+/// output here.
+fn echo_image(w: usize, h: usize, s: u8, vertical: bool, src: &mut dyn FnMut() -> u8) -> Vec<u8> {
+    // build for horizontal edges (rows), transpose at the end for vertical ones
+    let (cols, rows) = if vertical { (h, w) } else { (w, h) };
+    let mut img = vec![0u8; cols * rows];
+    for v in img.iter_mut() {
+        *v = src();
+    }
+    let alpha: Vec<u8> = (0..1 + src() as usize % 3).map(|_| src()).collect();
+    let mut quad: Vec<[u8; 4]> = (0..cols)
+        .map(|_| {
+            let base = alpha[src() as usize % alpha.len()] as i32;
+            let step = (src() % 41) as i32 - 20;
+            [base.clamp(0, 255) as u8, base.clamp(0, 255) as u8, (base + step).clamp(0, 255) as u8, (base + step).clamp(0, 255) as u8]
+        })
+        .collect();
+    let mut e = 8;
+    while e + 1 < rows {
+        for x in 0..cols {
+            for k in 0..4 {
+                img[x + (e - 2 + k) * cols] = quad[x][k];
+            }
+            let (a, b, c, d) = filter4(quad[x][0], quad[x][1], quad[x][2], quad[x][3], s);
+            quad[x] = [a, b, c, d];
+        }
+        e += 8;
+    }
+    if !vertical {
+        return img;
+    }
+    let mut t = vec![0u8; w * h];
+    for y in 0..h {
+        for x in 0..w {
+            t[x + y * w] = img[y + x * cols];
+        }
+    }
+    t
+}
+
+fn echo_case(g: &mut Gen) -> Verdict {
+    let vertical = g.bool();
+    let long = g.range(18, 60) as usize;
+    let short = if g.chance(1, 3) { g.range(1, 9) } else { g.range(8, 40) } as usize;
+    let (w, h) = if vertical { (long, short) } else { (short, long) };
+    let s = g.range(1, 12) as u8;
+    let mut src = || g.byte();
+    let img = echo_image(w, h, s, vertical, &mut src);
+    g.describe(|| json!({"w": w, "h": h, "strength": s, "edges": if vertical { "vertical" } else { "horizontal" }, "head": &img[..img.len().min(32)]}));
+    match check_image(&img, w, s) {
+        Err(m) => Verdict::fail(m),
+        Ok(nt) => Verdict::pass_l(nt, fnv64(&img) ^ ((w as u64) << 40) ^ ((s as u64) << 56), vec![if vertical { "echo across vertical edges" } else { "echo across horizontal edges" }]),
     }
 }
 
@@ -358,10 +532,12 @@ pub fn run(ctx: &Ctx) -> i32 {
     reports.push(exhaustive_suite(ctx, "size_grid", gw * (gh + 1), &move |i, acc| grid_item(seed, gw, i, acc)));
     reports.push(exhaustive_suite(ctx, "extreme_aspect", 432, &move |i, acc| extreme_item(seed, i, acc)));
     reports.push(exhaustive_suite(ctx, "kernel_lattice", 28 * 28, &lattice_item));
+    reports.push(exhaustive_suite(ctx, "kernel_ramp_boundaries", 12 * 9, &ramp_item));
     let kc = ctx.tier.pick(120_000u64, 1_000_000u64);
     reports.push(tape_suite(ctx, "kernel_random", kc, 1504, &random_kernel_case));
     let (ic, iw, ih) = ctx.tier.pick((60_000u64, 160i64, 120i64), (600_000u64, 400i64, 300i64));
     reports.push(tape_suite(ctx, "random_images", ic, 6200, &move |g| random_image_case(g, iw, ih)));
+    reports.push(tape_suite(ctx, "echo_images", ctx.tier.pick(20_000u64, 300_000u64), 3000, &echo_case));
     let mut kernel_exhaustive = false;
     if ctx.tier == Tier::Thorough {
         let r = exhaustive_suite(ctx, "kernel_exhaustive", 65536, &full_item);
@@ -375,7 +551,7 @@ pub fn run(ctx: &Ctx) -> i32 {
         ctx,
         reports,
         Summary {
-            rule: "Kernel suites place four-sample patterns at each of the four code sites (vector lanes / scalar remainder, for horizontal and vertical edges) in images where no other edge is filterable and compare with a scalar Annex J reference (truncating division); kernel_lattice enumerates 28^4 patterns x 12 strengths x 4 sites, kernel_exhaustive (thorough) all 2^32 x 12 x 4, kernel_random draws patterns from the proptest tape. size_grid / random_images compare whole images of every size in a dense box (and random larger sizes) with a whole-image reference (horizontal edges first, then vertical). Non-trivial = the reference output differs from the input; evaluations counts patterns (kernel suites) or images.",
+            rule: "Kernel suites place four-sample patterns at each of the four code sites (vector lanes / scalar remainder, for horizontal and vertical edges) in images where no other edge is filterable and compare with a scalar Annex J reference (truncating division); kernel_lattice enumerates 28^4 patterns x 12 strengths x 4 sites, kernel_exhaustive (thorough) all 2^32 x 12 x 4, kernel_ramp_boundaries solves the fourth sample so that d = (A-4B+4C-D)/8 lands on 0, +-1, +-(S-1..S+1), +-(2S-2..2S+1) and +-159 with every truncation remainder, for C at strength-dependent distances from B, whole groups of eight lanes sharing (A,B,C) or (B,C,D); kernel_random draws patterns from the proptest tape. echo_images: the samples around every edge are the reference filter's output of the samples around the edge before (the implementation meets its own earlier output). size_grid / random_images compare whole images of every size in a dense box (and random larger sizes) with a whole-image reference (horizontal edges first, then vertical). Non-trivial = the reference output differs from the input; evaluations counts patterns (kernel suites) or images.",
             assumptions: vec![
                 "strength in 1..=12 and data.len() % width == 0 (documented preconditions)".into(),
                 "Annex J as recalled: d=(A-4B+4C-D)/8, d1=UpDownRamp(d,S), d2=clip((A-D)/4, +-|d1/2|), B1=clip(B+d1), C1=clip(C-d1), A1=A-d2, D1=D+d2".into(),
@@ -397,6 +573,18 @@ pub fn replay(suite: &str, case: &Value) -> Option<Verdict> {
             let thorough = case["tier"].as_str() == Some("thorough");
             let (iw, ih) = if thorough { (400, 300) } else { (160, 120) };
             Some(random_image_case(&mut Gen::new(&tape), iw, ih))
+        }
+        "echo_images" => {
+            let tape = super::tape_of(case)?;
+            Some(echo_case(&mut Gen::new(&tape)))
+        }
+        "kernel_ramp_boundaries" => {
+            let mut acc = Acc::default();
+            ramp_item(case["ramp_item"].as_u64()?, &mut acc);
+            Some(match acc.failure {
+                Some((_, _, m, _)) => Verdict::fail(m),
+                None => Verdict::pass(true, 0),
+            })
         }
         "kernel_lattice" | "kernel_exhaustive" => {
             let a = case["a"].as_u64()? as u8;
